@@ -5,7 +5,7 @@
    this state, in the instruction's own symbol context, at its own address. *)
 From Coq Require Import NArith ZArith List Bool Lia.
 From CA Require Import Model.Lexer Model.Parser Model.Literal Model.BigIntOps Model.Evaluator Model.Matcher Model.Resolver
-  Model.Resolver2 Proofs.ResolverFixP Proofs.Resolver2FixP.
+  Model.Resolver2 Proofs.ResolverFixP Proofs.Resolver2FixP Proofs.Resolver2TopP.
 From CA Require Model.Paths Model.Overlap Model.Cursor Model.LastPass Model.Output Model.Symbols Proofs.CursorP.
 Import ListNotations.
 Open Scope Z_scope.
@@ -144,4 +144,62 @@ Proof.
   destruct Q as [Q Hnf]. split; [rewrite <- Q; exact Hnf|].
   exists c0, p0, b, pos, loc. rewrite <- Q. auto.
 Qed.
+
+(* every #assert condition evaluates to TRUE under the certified state, in the directive's own symbol context, at
+   the bank and position the cursor walk reaches it with *)
+Theorem certified2_assert ns1 e ctx ns2 st :
+  labels_ok2 (ns1 ++ (XAssert e, ctx) :: ns2) st -> Certified2 m banks defs mb (ns1 ++ (XAssert e, ctx) :: ns2) st ->
+  exists c0 p0 b pos loc,
+    walk ns1 st (Cursor.init_cursor banks) None = Ok (c0, p0) /\ visit (XAssert e, ctx) c0 p0 = Ok (b, pos) /\
+    eval code_ops (pvar2 m st ctx (Cursor.eval_address mb b pos false) false) e [] = EOk (VBool true, loc).
+Proof.
+  intros Hl Hc. destruct (certified2_node _ _ _ _ Hl Hc) as (c0 & p0 & b & pos & Hw & Hv & H).
+  cbn [fst snd] in H. unfold resolve_node2 in H. cbv zeta in H. cbn [negb] in H.
+  match type of H with match ?x with EOk _ => _ | EErr => _ end = _ => destruct x as [[v loc]|] eqn:E; [|discriminate] end.
+  destruct v as [| | | | |[|]|]; try discriminate.
+  exists c0, p0, b, pos, loc. auto.
+Qed.
 End Cert.
+
+(* ---- whole programs ---- *)
+(* C02: in the state behind a successful assembly every #assert holds at its place *)
+Theorem assemble2_asserts_hold indexed defs ps budget r :
+  assemble2 indexed defs ps budget = Ok r ->
+  exists m ns st1 st,
+    setup indexed defs ps = Some (m, ns, r_banks r, st1) /\ r_syms r = symbol_values m st /\
+    Certified2 m (r_banks r) defs max_bits ns st /\
+    forall ns1 e ctx ns2, ns = ns1 ++ (XAssert e, ctx) :: ns2 ->
+      exists c0 p0 b pos loc,
+        walk (r_banks r) max_bits ns1 st (Cursor.init_cursor (r_banks r)) None = Ok (c0, p0) /\
+        visit (r_banks r) max_bits (XAssert e, ctx) c0 p0 = Ok (b, pos) /\
+        eval code_ops (pvar2 m st ctx (Cursor.eval_address max_bits b pos false) false) e [] = EOk (VBool true, loc).
+Proof.
+  intro H. destruct (assemble2_certificate_inv _ _ _ _ _ H) as (m & ns & st1 & st & S & Hl & Hc & Hs & _).
+  exists m, ns, st1, st. repeat split; auto.
+  intros ns1 e ctx ns2 ->. eapply certified2_assert; eauto.
+Qed.
+
+(* a program with an assertion that is not true in ANY certified state never assembles, at any budget *)
+Theorem assert_false_never_assembles indexed defs ps m ns banks st1 ns1 e ctx ns2 :
+  setup indexed defs ps = Some (m, ns, banks, st1) -> ns = ns1 ++ (XAssert e, ctx) :: ns2 ->
+  (forall st c0 p0 b pos loc,
+     Certified2 m banks defs max_bits ns st ->
+     walk banks max_bits ns1 st (Cursor.init_cursor banks) None = Ok (c0, p0) ->
+     visit banks max_bits (XAssert e, ctx) c0 p0 = Ok (b, pos) ->
+     eval code_ops (pvar2 m st ctx (Cursor.eval_address max_bits b pos false) false) e [] <> EOk (VBool true, loc)) ->
+  forall budget r, assemble2 indexed defs ps budget <> Ok r.
+Proof.
+  intros S E Hno budget r H.
+  destruct (assemble2_asserts_hold _ _ _ _ _ H) as (m' & ns' & st1' & st & S' & _ & Hc & Ha).
+  rewrite S in S'. inversion S'; subst m' ns' st1'. clear S'.
+  match goal with Hb : banks = r_banks r |- _ => rewrite <- Hb in * end.
+  destruct (Ha _ _ _ _ E) as (c0 & p0 & b & pos & loc & Hw & Hv & He).
+  eapply Hno; eauto.
+Qed.
+
+(* in particular: a condition that is true under no valuation of the symbols at all *)
+Corollary assert_unsatisfiable_never_assembles indexed defs ps m ns banks st1 ns1 e ctx ns2 :
+  setup indexed defs ps = Some (m, ns, banks, st1) -> ns = ns1 ++ (XAssert e, ctx) :: ns2 ->
+  (forall pv loc, eval code_ops pv e [] <> EOk (VBool true, loc)) ->
+  forall budget r, assemble2 indexed defs ps budget <> Ok r.
+Proof. intros S E Hno. eapply assert_false_never_assembles; eauto. Qed.
